@@ -5,6 +5,8 @@ F_CACHE = 'scnr/src/internal/scanner_cache.rs'
 F_MODE = 'scnr/src/scanner_mode.rs'
 F_PAT = 'scnr/src/pattern.rs'
 F_IDS = 'scnr/src/internal/ids.rs'
+F_SB = 'scnr/src/scanner_builder.rs'
+F_SC = 'scnr/src/scanner.rs'
 ID_SPECS = {'new': 'ensures r.0 == index', 'as_usize': 'ensures r == self.0', 'id': 'ensures r == self.0'}
 KEY_DERIVES = ('PartialEq', 'Eq', 'Hash')
 
@@ -58,6 +60,48 @@ proof {
     }
 }''', why='TRUSTED: `modes.try_into()` (TryFrom<&[ScannerMode]> for ScannerImpl, the whole build layer) is represented by verif_compile with the abstract result `compile(modes@)`; arguments let-bound in evaluation order'),
     ])
+
+
+def _lock_usage(repo):
+    """the lock model (verif_cache_acquire / verif_cache_release) is the invariant-carrying lock: it is sound only if the ONLY things ever done with the
+    process-wide cache are: creation by ScannerCache::new() and `SCANNER_CACHE.write().unwrap().get(..)`. Checked on the real text on every run."""
+    import os, re
+    from rstok import lex
+    root = os.path.join(repo, 'scnr', 'src')
+    uses = []
+    for d, _, fs in os.walk(root):
+        for f in fs:
+            if not f.endswith('.rs'):
+                continue
+            text = open(os.path.join(d, f), encoding='utf-8').read()
+            toks = lex(text)
+            for i, t in enumerate(toks):
+                if t.text == 'SCANNER_CACHE':
+                    uses.append((os.path.relpath(os.path.join(d, f), repo), [x.text for x in toks[max(0, i - 6):i + 10]], i, toks))
+    n_get = 0
+    for rel, ctx, i, toks in uses:
+        nxt = [x.text for x in toks[i + 1:i + 11]]
+        prv = [x.text for x in toks[max(0, i - 3):i]]
+        if nxt[:10] == ['.', 'write', '(', ')', '.', 'unwrap', '(', ')', '.', 'get'] and rel == F_SB:
+            n_get += 1
+        elif prv[-1:] == ['static'] and rel == F_CACHE:
+            j = i
+            while toks[j].text != ';':
+                j += 1
+            init = ' '.join(x.text for x in toks[i:j])
+            if 'RwLock :: new ( ScannerCache :: new ( ) )' not in init:
+                raise ExtractError('SCANNER_CACHE is no longer initialised with ScannerCache::new(): %s' % init)
+        elif 'use' in [x.text for x in toks[max(0, i - 12):i]] and (nxt[:1] in (['}'], [';'], [','])):
+            pass
+        else:
+            raise ExtractError('SCANNER_CACHE used in a way the lock model does not cover (%s: .. %s ..)' % (rel, ' '.join(ctx)))
+    if n_get != 2:
+        raise ExtractError('expected exactly two `SCANNER_CACHE.write().unwrap().get(..)` sites in %s, found %d' % (F_SB, n_get))
+
+
+LOCKED_GET = Replace('U8', 'SCANNER_CACHE.write().unwrap().get($x)?',
+                     '{ let mut __c = verif_cache_acquire(); let __r = __c.get($x); verif_cache_release(__c); __r }?',
+                     why='TRUSTED lock model: acquiring the process-wide RwLock hands out THE cache value, which satisfies the lock invariant cache_inv (established by the initialiser ScannerCache::new(), re-established by ScannerCache::get - both proved - and nothing else is ever done with it: source condition checked on every run); releasing requires the invariant. A poisoned lock (unwrap) presupposes a panic under the lock: outside the claim')
 
 UNIT = dict(
     name='u_cache',
@@ -131,5 +175,37 @@ pub open spec fn cache_inv(c: ScannerCache) -> bool {
         Fn(F_CACHE, 'ScannerCache', 'new', ret='r', spec='ensures cache_inv(r), r.cache@.len() == 0', props=['C13'],
            edits=[Ins('body_start', None, 'broadcast use axiom_modes_key_model, axiom_fx_valid;')]),
         get,
+        # ---- the cached public entry points: the cache's answer reaches the user unchanged
+        SourceCheck('SCANNER_CACHE is created by ScannerCache::new() and only ever used as SCANNER_CACHE.write().unwrap().get(..)', _lock_usage),
+        Raw('''
+// TRUSTED model of `SCANNER_CACHE.write().unwrap()` (rule U8): exclusive access to the one process-wide cache value under its lock invariant
+#[verifier::external_body]
+pub fn verif_cache_acquire() -> (c: ScannerCache)
+    ensures cache_inv(c)
+{ unimplemented!() }
+#[verifier::external_body]
+pub fn verif_cache_release(c: ScannerCache)
+    requires cache_inv(c)
+{ unimplemented!() }
+''', label='trusted lock model'),
+        Struct(F_SC, 'Scanner', derive=[]),
+        Struct(F_SB, 'ScannerBuilder', derive=[]),
+        Struct(F_SB, 'SimpleScannerBuilder', derive=[]),
+        Fn(F_SB, 'ScannerBuilder', 'build', ret='r', props=['C13'], spec='''
+ensures match r {
+    // build() = what compiling the builder's modes without the cache gives, whatever the cache held
+    Ok(sc) => compile(self.scanner_modes@) == Some(sc.inner),
+    Err(_) => compile(self.scanner_modes@) is None,
+}
+''', edits=[LOCKED_GET]),
+        Fn(F_SB, 'SimpleScannerBuilder', 'build', ret='r', props=['C13'], spec='''
+ensures match r {
+    Ok(sc) => compile(seq![self.scanner_mode]) == Some(sc.inner),
+    Err(_) => compile(seq![self.scanner_mode]) is None,
+}
+''', edits=[Replace('U8+E6', 'SCANNER_CACHE.write().unwrap().get(&[self.scanner_mode])?',
+                     '{ let ghost __m0 = self.scanner_mode; let __a = [self.scanner_mode]; let __s: &[ScannerMode] = &__a; proof { assert(__s@ =~= seq![__m0]); } '
+                     'let mut __c = verif_cache_acquire(); let __r = __c.get(__s); verif_cache_release(__c); __r }?',
+                     why=LOCKED_GET.why + '; the one-element array argument is let-bound (evaluation order kept) so that ghost code can name its view')]),
     ],
 )
